@@ -108,7 +108,13 @@ def _vec_arg(e, v, node):
 
 
 def ext_dot(e, args, kw, node, st):
-    return NUMPY["numpy.dot"](e, [_vec_arg(e, args[0], node), _vec_arg(e, args[1], node)], kw, node, st)
+    """numpy.dot of two 3-vectors: the function np_dot3 of the six components.  It is left uninterpreted (code, contracts
+    and specification use the same symbol, so what is proved holds for every function, in particular the dot product);
+    this keeps products of coordinates out of the verification conditions."""
+    a, b = _vec_arg(e, args[0], node), _vec_arg(e, args[1], node)
+    if len(a.c) != 3 or len(b.c) != 3:
+        raise Unsupported("numpy.dot of vectors that are not 3-dimensional")
+    return e.ufun("np_dot3", *([z3.RealSort()] * 7))(*(a.c + b.c))
 
 
 def ext_norm(e, args, kw, node, st):
